@@ -294,6 +294,7 @@ func c20Body(c *run.Ctx) {
 				}
 			}
 		}
+		seq0 := s.OpSeq()
 		before, _ := json.Marshal(live)
 		for _, x := range atts {
 			x.got = nil
@@ -305,7 +306,11 @@ func c20Body(c *run.Ctx) {
 		norm := func(b []byte) string {
 			return strings.Replace(strings.Replace(string(b), `"status":"table_game_opened"`, `"status":"-"`, 1), `"status":"table_game_playing"`, `"status":"-"`, 1)
 		}
-		if norm(before) != norm(after) {
+		if seq0%2 == 1 || s.OpSeq() != seq0 {
+			// the harness itself was inside a table operation (an unlocked one such as an add-on
+			// changes the live table at once): the comparison would blame the fan-out for it
+			labels["fanout_overlapped_harness_operation"] = true
+		} else if norm(before) != norm(after) {
 			report("C20.engine-table-changed", fmt.Sprintf("fan-out to %v changed the engine's table (event %s, status %s)", order, name, live.State.Status))
 			return
 		}
